@@ -113,17 +113,12 @@ static std::string relcon(const Poly_Con_Relation& r) {
 static Constraint_System mkcs(const Op& o, unsigned n) { Constraint_System cs; for (size_t i = 0; i < o.cs.size(); ++i) cs.insert(mkc(o.cs[i].first, o.cs[i].second, n)); return cs; }
 static Generator_System mkgs(const Op& o, unsigned n) { Generator_System gs; for (size_t i = 0; i < o.gs.size(); ++i) gs.insert(mkg(o.gs[i].first, o.gs[i].second, n)); return gs; }
 
-static void run_history(const std::vector<std::string>& lines, int fd) {
-  vj::install_terminate();
-  vj::Writer W(fd); Slot S[4];
-  { std::istringstream is(lines[0]); std::string t; is >> t >> LIM; if (LIM <= 0) LIM = 1000000; }
-  W.line("{\"e\":\"Reset\"}");
-  for (size_t t = 1; t < lines.size(); ++t) {
-    Op o = parse(lines[t]); Slot& d = S[o.dst]; Slot& s = S[o.src > 0 ? o.src : o.dst];
-    std::string exc = "", obs = "[]", rr = "{\"ok\":false,\"num\":0,\"den\":1,\"ext\":false,\"pt\":[]}", rc = "{\"sat\":false,\"inc\":false,\"dis\":false,\"si\":false}";
-    bool rb = false; long ri = 0; unsigned n = d.p ? d.p->space_dimension() : 0; big = false;
-    const std::string& op = o.op;
-    try {
+struct Out { std::string exc, obs, rr, rc; bool rb; long ri; };
+// executes one call on receiver slot d (argument slot s); used for the real object and, after an assignment, for its
+// copy-constructed twin (C13: "x = y; x.op()" must behave like "T x(y); x.op()")
+static void exec_op(const Op& o, Slot* S, Slot& d, Slot& s, Out& out) {
+  std::string& exc = out.exc; std::string& obs = out.obs; std::string& rr = out.rr; std::string& rc = out.rc; bool& rb = out.rb; long& ri = out.ri;
+  unsigned n = d.p ? d.p->space_dimension() : 0; const std::string& op = o.op;
       if (op == "new") { Polyhedron* q = mk(o.topo == "NNC", o.n, o.k == "empty" ? EMPTY : UNIVERSE); delete d.p; d.p = q; d.nnc = (o.topo == "NNC"); }
       else if (op == "from_cs") { Constraint_System cs = mkcs(o, o.n); bool nnc = (o.topo == "NNC"); Polyhedron* q = nnc ? (Polyhedron*) new NNC_Polyhedron(cs) : (Polyhedron*) new C_Polyhedron(cs); delete d.p; d.p = q; d.nnc = nnc; }
       else if (op == "from_gs") { Generator_System gs = mkgs(o, o.n); bool nnc = (o.topo == "NNC"); Polyhedron* q = nnc ? (Polyhedron*) new NNC_Polyhedron(gs) : (Polyhedron*) new C_Polyhedron(gs); delete d.p; d.p = q; d.nnc = nnc; }
@@ -219,17 +214,56 @@ static void run_history(const std::vector<std::string>& lines, int fd) {
         std::stringstream s2; q->ascii_dump(s2); rb = ok && (s2.str() == t1) && q->OK(); ri = (ok ? 1 : 0) + (s2.str() == t1 ? 2 : 0) + (q->OK() ? 4 : 0); Slot& tgt = S[o.src > 0 ? o.src : o.dst]; delete tgt.p; tgt.p = q; tgt.nnc = d.nnc; }
       // ---------------- widenings and integer-aware operators (C08, C17)
       else if (op == "H79_widening" || op == "BHRZ03_widening" || op == "widening") { unsigned tk = o.den; unsigned* tp = (o.mod > 0) ? &tk : 0;
+        // the widenings require the argument to be contained in the receiver: establish it by a hull when needed (o.var % 2: always)
+        if (d.p->space_dimension() == s.p->space_dimension() && d.nnc == s.nnc && ((o.var % 2) || !d.p->contains(*s.p))) d.p->poly_hull_assign(*s.p);
         if (op == "H79_widening") d.p->H79_widening_assign(*s.p, tp); else if (op == "BHRZ03_widening") d.p->BHRZ03_widening_assign(*s.p, tp); else d.p->widening_assign(*s.p, tp); ri = tk; }
       else if (op == "limited_H79" || op == "limited_BHRZ03" || op == "bounded_H79" || op == "bounded_BHRZ03") { unsigned tk = o.den; unsigned* tp = (o.mod > 0) ? &tk : 0; Constraint_System cs = mkcs(o, n);
         if (op == "limited_H79") d.p->limited_H79_extrapolation_assign(*s.p, cs, tp); else if (op == "limited_BHRZ03") d.p->limited_BHRZ03_extrapolation_assign(*s.p, cs, tp);
         else if (op == "bounded_H79") d.p->bounded_H79_extrapolation_assign(*s.p, cs, tp); else d.p->bounded_BHRZ03_extrapolation_assign(*s.p, cs, tp); ri = tk; }
       else if (op == "drop_non_integer") { if (o.vs.empty()) d.p->drop_some_non_integer_points(o.var % 2 ? ANY_COMPLEXITY : POLYNOMIAL_COMPLEXITY); else { Variables_Set vs; for (size_t i = 0; i < o.vs.size(); ++i) vs.insert(Variable(o.vs[i])); d.p->drop_some_non_integer_points(vs, o.var % 2 ? ANY_COMPLEXITY : POLYNOMIAL_COMPLEXITY); } }
       else exc = "unknown-op";
+}
+
+static const char* MUTATORS[] = { "add_constraint", "refine_with_constraint", "add_constraints", "refine_with_constraints", "add_generator", "add_generators",
+  "add_congruence", "refine_with_congruence", "add_congruences", "refine_with_congruences", "unconstrain", "unconstrain_set", "intersection", "poly_hull",
+  "poly_difference", "time_elapse", "positive_time_elapse", "topological_closure", "simplify_using_context", "hull_if_exact", "affine_image", "affine_preimage",
+  "gen_affine_image", "gen_affine_preimage", "gen_affine_image_lhs", "gen_affine_preimage_lhs", "bounded_affine_image", "bounded_affine_preimage",
+  "add_dims_embed", "add_dims_project", "concatenate", "remove_dims", "remove_higher", "map_dims", "expand", "fold", "H79_widening", "BHRZ03_widening",
+  "widening", "limited_H79", "limited_BHRZ03", "bounded_H79", "bounded_BHRZ03", "drop_non_integer", 0 };
+static bool is_mutator(const std::string& op) { for (int i = 0; MUTATORS[i]; ++i) if (op == MUTATORS[i]) return true; return false; }
+static bool is_observer_like(const std::string& op) { return !is_mutator(op) && op != "new" && op != "from_cs" && op != "from_gs" && op != "from_cgs" && op != "destroy" && op != "copy_from" && op != "assign" && op != "swap" && op != "conv_topo" && op != "rebuild" && op != "dumpload"; }
+
+static void run_history(const std::vector<std::string>& lines, int fd) {
+  vj::install_terminate();
+  vj::Writer W(fd); Slot S[4]; Slot TW[4];
+  { std::istringstream is(lines[0]); std::string t; is >> t >> LIM; if (LIM <= 0) LIM = 1000000; }
+  W.line("{\"e\":\"Reset\"}");
+  for (size_t t = 1; t < lines.size(); ++t) {
+    Op o = parse(lines[t]); Slot& d = S[o.dst]; Slot& s = S[o.src > 0 ? o.src : o.dst];
+    std::string exc = "", obs = "[]", rr = "{\"ok\":false,\"num\":0,\"den\":1,\"ext\":false,\"pt\":[]}", rc = "{\"sat\":false,\"inc\":false,\"dis\":false,\"si\":false}";
+    bool rb = false; long ri = 0; unsigned n = d.p ? d.p->space_dimension() : 0; big = false;
+    const std::string& op = o.op;
+    Out out; out.exc = exc; out.obs = obs; out.rr = rr; out.rc = rc; out.rb = false; out.ri = 0;
+    std::string twin_desc = "{\"alive\":false,\"n\":0,\"topo\":\"C\",\"H\":[],\"V\":[],\"st\":\"\",\"ok\":true}";
+    try {
+      exec_op(o, S, d, s, out);
+      exc = out.exc; obs = out.obs; rr = out.rr; rc = out.rc; rb = out.rb; ri = out.ri;
     }
     catch (std::invalid_argument&) { exc = "invalid_argument"; } catch (std::length_error&) { exc = "length_error"; }
     catch (std::domain_error&) { exc = "domain_error"; } catch (std::overflow_error&) { exc = "overflow_error"; }
     catch (std::logic_error&) { exc = "logic_error"; } catch (std::bad_alloc&) { exc = "bad_alloc"; }
     catch (std::runtime_error&) { exc = "runtime_error"; } catch (std::exception&) { exc = "exception"; } catch (...) { exc = "unknown"; }
+    // ---- twins (C13): after x = y (operator=), a hidden copy-constructed clone of y follows x through every later mutator
+    if (op == "assign" && exc == "" && o.dst != o.src) { delete TW[o.dst].p; TW[o.dst].p = clone(s); TW[o.dst].nnc = s.nnc; }
+    else if (op == "new" || op == "from_cs" || op == "from_gs" || op == "from_cgs" || op == "destroy" || op == "copy_from" || op == "conv_topo" || op == "rebuild" || (op == "assign" && exc != "")) { delete TW[o.dst].p; TW[o.dst].p = 0; }
+    else if (op == "swap") { delete TW[o.dst].p; TW[o.dst].p = 0; if (o.src > 0) { delete TW[o.src].p; TW[o.src].p = 0; } }
+    else if (op == "dumpload") { int tg = o.src > 0 ? o.src : o.dst; delete TW[tg].p; TW[tg].p = 0; }
+    else if (TW[o.dst].p && is_mutator(op)) {
+      if (o.src == o.dst || exc != "") { delete TW[o.dst].p; TW[o.dst].p = 0; }
+      else { Out o2; o2.rb = false; o2.ri = 0; bool keep = big;
+        try { exec_op(o, S, TW[o.dst], s, o2); twin_desc = desc(TW[o.dst]); } catch (...) { twin_desc = "{\"alive\":true,\"n\":0,\"topo\":\"C\",\"H\":[],\"V\":[],\"st\":\"twin-threw\",\"ok\":false}"; }
+        big = keep || big; }
+    }
     std::string p1 = desc(S[1]), p2 = desc(S[2]), p3 = desc(S[3]);
     std::vector<std::string> ccs, ggs;
     for (size_t i = 0; i < o.cs.size(); ++i) ccs.push_back(row(o.cs[i].first.c_str(), o.cs[i].second));
@@ -237,9 +271,9 @@ static void run_history(const std::vector<std::string>& lines, int fd) {
     vj::Obj e; e.s("e", "Op").i("t", t).s("op", op).i("dst", o.dst).i("src", o.src).i("argn", o.n).s("topo", o.topo).s("k", o.k).i("var", o.var).i("den", o.den).i("mod", o.mod)
       .raw("v", vj::arr(o.v)).raw("w", vj::arr(o.w)).raw("vs", vj::arr(o.vs)).raw("cs", vj::arrs(ccs)).raw("gs", vj::arrs(ggs))
       .b("rb", rb).i("ri", ri).raw("rr", rr).raw("rc", rc).s("exc", exc).raw("obs", obs)
-      .raw("post", std::string("[") + p1 + "," + p2 + "," + p3 + "]").b("big", big);
+      .raw("post", std::string("[") + p1 + "," + p2 + "," + p3 + "]").raw("twin", twin_desc).b("big", big);
     W.line(e.str());
-    if (big) { W.line("{\"e\":\"Reset\"}"); for (int i = 1; i <= 3; ++i) { delete S[i].p; S[i].p = 0; } }
+    if (big) { W.line("{\"e\":\"Reset\"}"); for (int i = 1; i <= 3; ++i) { delete S[i].p; S[i].p = 0; delete TW[i].p; TW[i].p = 0; } }
   }
 }
 
